@@ -209,11 +209,14 @@ class _MaskedArrayFunc(object):
 
         # transform back to numpy array
         if np.ma.isMaskedArray(result):
-            if result.dtype.kind == 'b':
+            if self.__name__ in ('all', 'any'):
                 # all / any: an all-NaN slice has no valid element (nan would be cast to True)
-                result = result.filled(self.__name__ == 'all')
+                # (the fully masked scalar np.ma.masked has a float dtype: do not test the dtype)
+                result = np.asarray(result.filled(self.__name__ == 'all'), dtype=bool)
             else:
                 result = result.filled(np.nan)
+            if np.ndim(result) == 0:
+                result = result[()] # scalar, as numpy returns for a full reduction
 
         return result
 
